@@ -762,6 +762,9 @@ impl<'a> SkiplistIterator<'a> {
 
 	/// Move to last entry
 	pub fn last(&mut self) {
+		// Forget the node cached by a forward run: `is_valid()` is false on it,
+		// which would end the walk below before it reaches the entries in range.
+		self.upper_node = std::ptr::null_mut();
 		self.nd = self.list.get_prev(self.list.tail, 0);
 		if self.nd == self.list.head || self.nd == self.lower_node {
 			return;
